@@ -29,10 +29,13 @@ uint64_t mh_mem_hash (void);
 extern const ri_ext mh_exts[]; extern const int mh_n_exts;
 
 /* ---- contexts ---- */
+typedef struct mh_tblk { struct mh_tblk *prev, *next; size_t size; long double align[0]; } mh_tblk;
 typedef struct mh_ctx {
   MIR_context_t ctx; int gen_inited; mh_engine engine;
   int err; MIR_error_type_t err_type; char errmsg[256];
+  mh_tblk head; struct MIR_alloc alloc; struct MIR_code_alloc calloc_; /* per-context tracking allocator */
 } mh_ctx;
+void mh_arm (int on);                                       /* arm / disarm the error trap around direct API calls (longjmp target mh_err_jb) */
 extern jmp_buf mh_err_jb; extern mh_ctx *mh_cur;
 /* all functions return 0 on success, -1 if the MIR error function was called (message in mc->errmsg) */
 int mh_open (mh_ctx *mc);                                   /* MIR_init with tracking allocator + error trap */
